@@ -34,12 +34,13 @@ ASSUMPTIONS = [
     "attribute names are free of '/' and of the serializer's reserved metadata names (as in C01)",
 ]
 BUDGET = {"quick": {"soft_s": 100}, "thorough": {"soft_s": 560}}
-MIN_EVALUATIONS = {"quick": 300, "thorough": 3000}
+MIN_EVALUATIONS = {"quick": 150, "thorough": 2000}
 REQUIRED_COUNTERS = ["eval:save_time_skip", "eval:load_time_skip", "eval:save_and_load_skip"]
 EXHAUSTIVE = {"quick": False, "thorough": False}
 
 POOL = ["a", "b", "c", "d", "e", "f", "g", "h"]
 ABSENT = ["zz", "not_there", "a2"]
+LONG_NAMES = ["payload", "meta"]  # every object of the graph also carries these two attributes
 TYPE_NAMES = ["ndarray", "Tensor", "Parameter", "int", "float", "str", "bool", "list", "tuple", "dict", "set", "Path", "float64", "Leaf", "NoneType"]
 N_FAMILIES = {"quick": 12, "thorough": 24}
 
@@ -58,7 +59,11 @@ def plan(tier, seed):
                 if mask % 5 == 0:
                     S = S + [ABSENT[mask % 3]]
                 specs.append({"family": fam, "S": S, "T": [], "S2": None, "store": "zip" if (mask + fam) % 2 else "dir"})
-    nrand = 330 if tier == "quick" else 2400
+    # the API also accepts a single str / a single type instead of a list (multi-character names on purpose)
+    for fam in range(nfam):
+        specs.append({"family": fam, "S": [LONG_NAMES[fam % len(LONG_NAMES)]], "T": [], "S2": None, "store": "zip" if fam % 2 else "dir", "scalar_skip": True})
+        specs.append({"family": fam, "S": [], "T": [TYPE_NAMES[fam % len(TYPE_NAMES)]], "S2": None, "store": "dir" if fam % 2 else "zip", "scalar_skip": True})
+    nrand = 260 if tier == "quick" else 2400
     for r in range(nrand):
         fam = r % nfam
         k = int(rng.integers(0, 9))
@@ -153,6 +158,8 @@ def _obj(rng, sg, depth, maxdepth, cls):
     import numpy as np
 
     o = cls()
+    o.payload = sg.make_array(rng, "float32", "1d")
+    o.meta = {"depth": depth, "payload": "a dict key, not an attribute"}
     n = int(rng.integers(3, 8))
     names = [POOL[int(i)] for i in rng.permutation(8)[:n]]
     child_slots = 0
@@ -178,20 +185,24 @@ def build_graph(seed, family, sg):
 
 
 def _prune(r0, x, names, types, deq, removed, depth=1):
-    """prune the no-skip round trip r0 in place, walking the original x in parallel (types are judged
-    on the in-memory value, exactly what save() sees).  removed collects (depth, name, why)."""
-    for nm in list(vars(x).keys()):
-        xv = vars(x)[nm]
+    """pruned copy of the no-skip round trip r0 (values are shared, objects along attribute nesting are
+    rebuilt), walking the original x in parallel: types are judged on the in-memory value, exactly what
+    save() sees.  removed collects (depth, name, why)."""
+    out = type(r0).__new__(type(r0))
+    xs = vars(x)
+    for nm, rv in vars(r0).items():
         if nm in names:
             removed.append((depth, nm, "name"))
-            if nm in vars(r0):
-                delattr(r0, nm)
-        elif types and isinstance(xv, types):
-            removed.append((depth, nm, "type"))
-            if nm in vars(r0):
-                delattr(r0, nm)
-        elif deq.is_autoserialize(xv) and nm in vars(r0) and deq.is_autoserialize(vars(r0)[nm]):
-            _prune(vars(r0)[nm], xv, names, types, deq, removed, depth + 1)
+            continue
+        if nm in xs:
+            xv = xs[nm]
+            if types and isinstance(xv, types):
+                removed.append((depth, nm, "type"))
+                continue
+            if deq.is_autoserialize(xv) and deq.is_autoserialize(rv):
+                rv = _prune(rv, xv, names, types, deq, removed, depth + 1)
+        setattr(out, nm, rv)
+    return out
 
 
 def _count_attrs(o, deq):
@@ -248,26 +259,25 @@ def run_case(spec, idx, ctx):
         x.save(p_plain, store=store)
         x.save(p_skip, store=store, skip=skip_arg)
 
-        def fresh():
-            return load(p_plain)
+        r0 = load(p_plain)  # the no-skip round trip
 
         # (1) save-time skipping, plain load
-        exp1, rem1 = fresh(), []
-        _prune(exp1, x, set(S), T, dq, rem1)
+        rem1 = []
+        exp1 = _prune(r0, x, set(S), T, dq, rem1)
         got1 = _load(ctx, load, p_skip, (), dict(fields, when="save"))
         if got1 is None:
             return _finish(ctx, spec, x, exp1, rem1, S, Tn, S2, store)
         _judge(ctx, got1, exp1, "save_time_skip", set(S), dict(fields, when="save"), "load(save(x, skip=S+T)) vs pruned no-skip round trip")
         # (2) load-time skipping by name
-        exp2, rem2 = fresh(), []
-        _prune(exp2, x, set(S), (), dq, rem2)
+        rem2 = []
+        exp2 = _prune(r0, x, set(S), (), dq, rem2)
         got2 = _load(ctx, load, p_plain, S if not (spec.get("scalar_skip") and S) else S[0], dict(fields, when="load"))
         if got2 is None:
             return _finish(ctx, spec, x, exp1, rem1, S, Tn, S2, store)
         _judge(ctx, got2, exp2, "load_time_skip", set(S), dict(fields, when="load"), "load(save(x), skip=S) vs pruned no-skip round trip")
         # (3) both (S2 == S unless the spec says otherwise)
-        exp3, rem3 = fresh(), []
-        _prune(exp3, x, set(S) | set(S2), T, dq, rem3)
+        rem3 = []
+        exp3 = _prune(r0, x, set(S) | set(S2), T, dq, rem3)
         got3 = _load(ctx, load, p_skip, S2, dict(fields, when="both"))
         if got3 is None:
             return _finish(ctx, spec, x, exp1, rem1, S, Tn, S2, store)
